@@ -175,9 +175,16 @@ def _walk(n, f, path, in_throw):
       s = _string_of(inner[0])
       if s is not None:
         f['keys'].add(s)
-  for c in n.get('inner') or []:
+  # std::string_view("@_.").find(c): the literal is a character class, like
+  # the range of `for (char c : std::string("@_."))`
+  class_find = False
+  if k == 'CXXMemberCallExpr' and _callee_name(n) in ('find', 'find_first_of') :
+    args = (n.get('inner') or [])[1:]
+    if args and all(_string_of(a) is None for a in args):
+      class_find = True
+  for i_, c in enumerate(n.get('inner') or []):
     if isinstance(c, dict) and c:
-      _walk(c, f, path + [k], in_throw)
+      _walk(c, f, path + [k] + (['CXXForRangeStmt'] if class_find and i_ == 0 else []), in_throw)
 
 
 class CppModel(object):
